@@ -18,6 +18,10 @@ NEEDS = {
     'C13-r7m2': 'symmetric form with 0.25 < frac(R/res) < 0.5 and a point near +R (own count with round())',
     'C14-r7m1': 'one caster, two casts whose origins are different points of the same cell',
     'C14-r7m2': 'an oblique ray that crosses no cell border along one axis (step from the indexes, tMax guarded by the direction)',
+    'C15-r8m1': '2-D grid with a non-zero Y offset left by an earlier translation, then one translation with both dx and dy non-zero (row range in storage order)',
+    'C15-r8m2': '3-D grid whose X size is not a power of two and a negative X component (unsigned xIndex - 1)',
+    'C16-r8m1': 'a sample near the top magnitude followed by small samples, variance read after the large ones left the window (double sum of squares)',
+    'C16-r8m2': 'OnlineVariance fed negative samples that are not multiples of the precision (floor instead of truncation)',
     'C09-r8m1': 'an estimator copy-constructed from another one that is still alive (eigen results held by reference to the own solver)',
     'C09-r8m2': 'a double point type, non-planar cloud, k-th and (k+1)-th neighbour distances closer than float rounding (adaptor returns float)',
     'C17-r8m1': 'a first data stamp at exactly 0 ns, report read at stamp W+1 (non-increasing guard against the initial last stamp)',
